@@ -165,7 +165,7 @@ class SolveExceptionTooManySolutions(SolveException):
 def solve(equations, verbose=False):
     equations = [(_to_expr(t1), _to_expr(t2)) for t1, t2 in equations]
     equations = [(t1, t2) for t1, t2 in equations if t1 != t2]
-    equations = list(set(equations))
+    equations = list(dict.fromkeys(equations))  # remove duplicates, keep the order (a set would order by hash)
     variables = {v.id: v for equation in equations for term in equation for v in term if isinstance(v, Variable)}
 
     # ##### Find equivalence classes of variables to speed up sympy solver #####
@@ -201,7 +201,7 @@ def solve(equations, verbose=False):
     # For every class: Use constant if it exists, or create a new class variable
     origvar_to_solvevar = {}  # id -> Variable or Constant
     contradicting_variables = set()
-    for equiv_class in classes:
+    for class_index, equiv_class in enumerate(classes):
         if any(n in constants for n in equiv_class):
             # Use constant
             class_constants = {constants[n] for n in equiv_class if n in constants}
@@ -211,7 +211,7 @@ def solve(equations, verbose=False):
             v = Constant(next(iter(class_constants)))
         else:
             # Create new variable for class
-            v = Variable(f"__EquivalenceClass-{id(equiv_class)}", f"Equivalent expressions { {variables[vid].name for vid in equiv_class} }")
+            v = Variable(f"__EquivalenceClass-{class_index}", f"Equivalent expressions { {variables[vid].name for vid in equiv_class} }")
         for n in equiv_class:
             assert n not in origvar_to_solvevar
             origvar_to_solvevar[n] = v
